@@ -53,6 +53,13 @@ def gen_value(rng, heap, root):
 
 def one_case(rng, tier, classes, cflags, force=None):
     force = force or {}
+    if rng.random() < force.get('deep_star_p', 0.04):
+        heap, root, steps = M.gen_star_case(rng, present=rng.random() < 0.8)
+        style = M.choose_style(rng, steps, False)
+        return {'classes': classes, 'cflags': [f for f in cflags if f[0] != 'Scope'], 'heap': heap,
+                'target': root, 'scope': None, 'root': 'T', 'spelling': M.spell(rng, steps, style),
+                'style': style, 'value': {'lit': M.jval(rng.choice([42, 'new', None]))}, 'missing': rng.choice([None, None, 'dict']),
+                'api': rng.choice(['assign', 'Assign'])}
     maxlen = 5 if tier == 'quick' else 8
     heap, root = M.gen_target(rng, rng.choice([2, 3, 4]))
     sroot = force.get('sroot', rng.random() < 0.12)
@@ -88,7 +95,7 @@ def one_case(rng, tier, classes, cflags, force=None):
 
 
 def generate(rng, tier, scale, **focus):
-    n = (1800 if tier == 'quick' else 40000) * scale
+    n = (4000 if tier == 'quick' else 40000) * scale
     classes, cflags = M.class_table(), M.class_flags()
     for _ in range(n):
         yield one_case(rng, tier, classes, cflags, focus)
@@ -205,10 +212,14 @@ def shrink(case):
 
 def focus(disagreements, facts_changed):
     f = {}
+    if 'MutFacts' in (facts_changed or []):
+        f['star_p'] = 0.4
+        f['deep_star_p'] = 0.3
     if any(c.get('root') == 'S' for c, _ in disagreements):
         f['sroot'] = True
     if disagreements and all(c.get('missing') for c, _ in disagreements):
         f['missing'] = 'dict'
     if any('x' in json.dumps(c['spelling']) for c, _ in disagreements):
         f['star_p'] = 0.6
+        f['deep_star_p'] = 0.3
     return f
